@@ -361,6 +361,9 @@ func ParseSliceHeader(nalu []byte, spsMap map[uint32]*SPS, ppsMap map[uint32]*PP
 		// Ceil( Log2( PicSizeInMapUnits ÷ SliceGroupChangeRate + 1 ) ) bits where ÷ is exact
 		picSizeInMapUnits := sps.picSizeInMapUnits()
 		sliceGroupChangeRate := pps.SliceGroupChangeRateMinus1 + 1
+		if sliceGroupChangeRate == 0 {
+			return nil, fmt.Errorf("pps slice_group_change_rate_minus1 %d is out of range", pps.SliceGroupChangeRateMinus1)
+		}
 		nrBits := bits.CeilLog2((picSizeInMapUnits+sliceGroupChangeRate-1)/sliceGroupChangeRate + 1)
 		sh.SliceGroupChangeCycle = uint32(r.Read(nrBits))
 	}
